@@ -1132,4 +1132,184 @@ theorem command_timeout (s : Proto) (name : String) (args : Vals) (kwargs : KwVa
     · rw [List.getElem?_eq_none h] at hpb; cases hpb
   simp [List.getElem?_set, hlt]
 
+/-! ### completeness: the own reply is returned -/
+
+theorem rxFrame_nonempty (v : Nat) (cs : List Cmd) (d : List UInt8) (sq id : Nat) (nm : String) (vals : Vals) (tr : List UInt8)
+    (h : rxFrame v cs d = .ok sq id nm vals tr) : d.isEmpty = false := by
+  cases d with
+  | nil => unfold rxFrame rxHeader at h; cases hdrOf v <;> simp at h
+  | cons a r => rfl
+
+/-- an entry survives every frame that does not decode with its sequence number -/
+theorem call_entry_kept (s : Proto) (d : List UInt8) (seq : Nat) (hw : WF s)
+    (h : ∀ id nm v tr, rxFrame s.version s.cmds d ≠ .ok seq id nm v tr) :
+    ∀ e ∈ s.awaiting, e.1 = seq → e ∈ (handler_call d s).2.awaiting := by
+  intro e he hk
+  cases hc : rxFrame s.version s.cmds d with
+  | short => obtain ⟨c, ec⟩ := call_short s d hc; rw [ec]; exact he
+  | unknown id => rw [call_unknown s d id hc]; exact he
+  | undecodable n => rw [call_undecodable s d n hc]; exact he
+  | ok sq id name vals tr =>
+    have hne : sq ≠ seq := fun hq => h id name vals tr (by rw [hc, hq])
+    obtain ⟨ha, -⟩ := call_ok_frame s d sq id name vals tr hc (fun eid fid hl => hw _ (lookup_mem _ _ _ hl))
+    rw [ha]
+    split
+    · exact List.mem_filter.mpr ⟨he, by simp [hk, Ne.symm hne]⟩
+    · exact he
+
+theorem lookup_of_own (s : Proto) (seq cid fid : Nat) (ho : Own s seq cid fid) (hm : (seq, (cid, fid)) ∈ s.awaiting) :
+    s.awaiting.lookup seq = some (cid, fid) := by
+  cases hl : s.awaiting.lookup seq with
+  | none => exact absurd rfl (lookup_none_key _ _ hl _ hm)
+  | some x =>
+    have := ho _ (lookup_mem _ _ _ hl) (.inr rfl)
+    simp only [Prod.mk.injEq, true_and] at this
+    rw [this]
+
+/-- frames that do not carry the call's number leave its entry, its future and its ownership as they are -/
+theorem deliverAll_kept (ds : List (List UInt8)) (s : Proto) (seq cid fid : Nat) (hw : WF s) (ho : Own s seq cid fid)
+    (hm : (seq, (cid, fid)) ∈ s.awaiting) (hp : s.futs[fid]? = some .pending)
+    (h : ∀ d ∈ ds, ∀ id nm v tr, rxFrame s.version s.cmds d ≠ .ok seq id nm v tr) :
+    (seq, (cid, fid)) ∈ (deliverAll ds s).2.awaiting ∧ (deliverAll ds s).2.futs[fid]? = some .pending := by
+  refine ⟨?_, deliverAll_pending_kept ds s seq cid fid hw ho hp h⟩
+  induction ds generalizing s with
+  | nil => exact hm
+  | cons d ds ih =>
+    have h1 := frameReceived_eq s d hw
+    have hs := frameReceived_step s d hw
+    have hpk := deliverAll_pending_kept [d] s seq cid fid hw ho hp (fun x hx => h x (by simp at hx; subst hx; exact List.mem_cons_self))
+    rcases hx : frameReceived d s with ⟨r, s1⟩
+    rw [hx] at h1 hs
+    simp only [Prod.mk.injEq] at h1
+    obtain ⟨hr0, h1⟩ := h1
+    subst hr0
+    simp only [deliverAll, bind, PyM.bind, hx, pure, PyM.pure] at hpk ⊢
+    have hm1 : (seq, (cid, fid)) ∈ s1.awaiting := by
+      rw [h1]
+      by_cases hd : d.isEmpty = true
+      · simp [hd]; exact hm
+      · simp only [hd, Bool.false_eq_true, ↓reduceIte]
+        exact call_entry_kept s d seq hw (h d List.mem_cons_self) _ hm rfl
+    refine ih s1 (hs.wf hw) (ho.sub hs.steps.sub) hm1 hpk ?_
+    intro d' hd' id nm v tr
+    rw [hs.version, hs.cmds]
+    exact h d' (List.mem_cons_of_mem _ hd') id nm v tr
+
+/-- ... and then the own reply resolves the future with its decoded values, whatever follows it -/
+theorem deliverAll_reply (pre post : List (List UInt8)) (d : List UInt8) (s : Proto) (seq cid fid : Nat) (nm : String) (v : Vals)
+    (tr : List UInt8) (hw : WF s) (ho : Own s seq cid fid) (hm : (seq, (cid, fid)) ∈ s.awaiting) (hp : s.futs[fid]? = some .pending)
+    (hno : ∀ x ∈ pre, ∀ id nm v tr, rxFrame s.version s.cmds x ≠ .ok seq id nm v tr)
+    (hd : rxFrame s.version s.cmds d = .ok seq cid nm v tr) (hnm : nm ≠ "invalidCommand") :
+    (deliverAll (pre ++ d :: post) s).2.futs[fid]? = some (.result v) := by
+  induction pre generalizing s with
+  | nil =>
+    have hl := lookup_of_own s seq cid fid ho hm
+    have hcr := call_reply s d seq cid fid nm v tr hd hl hnm hp
+    have hne := rxFrame_nonempty _ _ _ _ _ _ _ _ hd
+    have h1 := frameReceived_eq s d hw
+    have hs := frameReceived_step s d hw
+    rcases hx : frameReceived d s with ⟨r, s1⟩
+    rw [hx] at h1 hs
+    simp only [Prod.mk.injEq] at h1
+    obtain ⟨hr0, h1⟩ := h1
+    subst hr0
+    simp only [hne, Bool.false_eq_true, ↓reduceIte, hcr] at h1
+    simp only [List.nil_append, deliverAll, bind, PyM.bind, hx]
+    have hlt : fid < s.futs.length := by
+      rcases Nat.lt_or_ge fid s.futs.length with h | h
+      · exact h
+      · rw [List.getElem?_eq_none h] at hp; cases hp
+    have hf1 : s1.futs[fid]? = some (.result v) := by rw [h1]; simp [popped, List.getElem?_set, hlt]
+    have hst := (deliverAll_spec post s1 (hs.wf hw)).2.stable fid (by rw [hf1]; intro h; injection h with h; cases h)
+    rw [hst, hf1]
+  | cons x pre ih =>
+    have h1 := frameReceived_eq s x hw
+    have hs := frameReceived_step s x hw
+    obtain ⟨hmk, hpk⟩ := deliverAll_kept [x] s seq cid fid hw ho hm hp (fun y hy => hno y (by simp at hy; subst hy; exact List.mem_cons_self))
+    rcases hx : frameReceived x s with ⟨r, s1⟩
+    rw [hx] at h1 hs
+    simp only [Prod.mk.injEq] at h1
+    obtain ⟨hr0, -⟩ := h1
+    subst hr0
+    simp only [deliverAll, bind, PyM.bind, hx, pure, PyM.pure] at hmk hpk
+    simp only [List.cons_append, deliverAll, bind, PyM.bind, hx]
+    refine ih s1 (hs.wf hw) (ho.sub hs.steps.sub) hmk hpk ?_ ?_
+    · intro y hy id nm v tr
+      rw [hs.version, hs.cmds]
+      exact hno y (List.mem_cons_of_mem _ hy) id nm v tr
+    · rw [hs.version, hs.cmds]; exact hd
+
+theorem registered_has (s : Proto) (seq cid : Nat) : (seq, (cid, s.futs.length)) ∈ (registered s seq cid).awaiting := by
+  simp only [registered]
+  split
+  · rename_i hany
+    obtain ⟨x, hx, hk⟩ := List.any_eq_true.mp hany
+    exact List.mem_map.mpr ⟨x, hx, by simp at hk; simp [hk]⟩
+  · simp
+
+/-- **the own reply is returned**: the frame was built and handed over; no frame received before it (during the hand-over, or
+earlier in the wait) decodes with the call's sequence number; then a frame that decodes - under the handler's version and table -
+with the sequence number placed in the request and the frame ID of the command completes the call with exactly its decoded
+values, whatever arrives after it and whatever would have ended the wait -/
+theorem command_reply (s : Proto) (name : String) (args : Vals) (kwargs : KwVals) (c : Cmd) (data : List UInt8)
+    (f1 pre post : List (List UInt8)) (d : List UInt8) (fin : WaitEnd) (rest : List CResp) (nm : String) (v : Vals) (tr : List UInt8)
+    (hw : WF s) (hs : s.script = .acquire true :: .send f1 none :: .wait (pre ++ d :: post) fin :: rest)
+    (hc : findByName s.cmds name = some c)
+    (hfr : (ezsp_frame name args kwargs (entered s name (.send f1 none :: .wait (pre ++ d :: post) fin :: rest))).1 = .ok data)
+    (hno : ∀ x ∈ f1 ++ pre, ∀ id nm v tr, rxFrame s.version s.cmds x ≠ .ok s.seq id nm v tr)
+    (hd : rxFrame s.version s.cmds d = .ok s.seq c.id nm v tr) (hnm : nm ≠ "invalidCommand") :
+    (command name args kwargs s).1 = .ok v := by
+  rw [command_granted s name args kwargs _ hs]
+  have hw1 : WF (entered s name (.send f1 none :: .wait (pre ++ d :: post) fin :: rest)) := hw
+  rcases hx : ezsp_frame name args kwargs (entered s name (.send f1 none :: .wait (pre ++ d :: post) fin :: rest)) with ⟨r, s1⟩
+  rw [hx] at hfr
+  simp only at hfr
+  subst hfr
+  simp only [hc]
+  have hw2 : WF { registered (entered s name (.send f1 none :: .wait (pre ++ d :: post) fin :: rest)) s.seq c.id with
+      seq := (s.seq + 1) % 256 } := registered_wf _ s.seq c.id hw1
+  have ho2 : Own { registered (entered s name (.send f1 none :: .wait (pre ++ d :: post) fin :: rest)) s.seq c.id with
+      seq := (s.seq + 1) % 256 } s.seq c.id s.futs.length := registered_own _ s.seq c.id hw1
+  have hp2 : ({ registered (entered s name (.send f1 none :: .wait (pre ++ d :: post) fin :: rest)) s.seq c.id with
+      seq := (s.seq + 1) % 256 } : Proto).futs[s.futs.length]? = some .pending := registered_pending _ s.seq c.id
+  have hm2 : (s.seq, (c.id, s.futs.length)) ∈ ({ registered (entered s name (.send f1 none :: .wait (pre ++ d :: post) fin :: rest))
+      s.seq c.id with seq := (s.seq + 1) % 256 } : Proto).awaiting := registered_has _ s.seq c.id
+  have hk := waitPhase_keeps data s.futs.length _ hw2
+  have hwp : waitPhase data s.futs.length
+      { registered (entered s name (.send f1 none :: .wait (pre ++ d :: post) fin :: rest)) s.seq c.id with
+        seq := (s.seq + 1) % 256 } = _ := rfl
+  conv at hwp => lhs; unfold waitPhase
+  rw [gwSend_run data _ f1 none (.wait (pre ++ d :: post) fin :: rest) hw2 rfl] at hwp
+  dsimp only at hwp
+  have hw3 : WF { registered (entered s name (.send f1 none :: .wait (pre ++ d :: post) fin :: rest)) s.seq c.id with
+      seq := (s.seq + 1) % 256, script := .wait (pre ++ d :: post) fin :: rest,
+      trace := (registered (entered s name (.send f1 none :: .wait (pre ++ d :: post) fin :: rest)) s.seq c.id).trace ++
+        [.sent data] } := hw2
+  obtain ⟨-, hst1⟩ := deliverAll_spec f1 _ hw3
+  obtain ⟨hma, hpa⟩ := deliverAll_kept f1 _ s.seq c.id s.futs.length hw3 ho2 hm2 hp2
+    (fun x hx' id nm v tr => hno x (List.mem_append_left _ hx') id nm v tr)
+  rw [awaitFuture_run s.futs.length 10 _ (pre ++ d :: post) fin rest (hst1.wf hw3) (by rw [hst1.script])] at hwp
+  generalize hsa : (deliverAll f1 { registered (entered s name (.send f1 none :: .wait (pre ++ d :: post) fin :: rest)) s.seq c.id with
+      seq := (s.seq + 1) % 256, script := .wait (pre ++ d :: post) fin :: rest,
+      trace := (registered (entered s name (.send f1 none :: .wait (pre ++ d :: post) fin :: rest)) s.seq c.id).trace ++
+        [.sent data] }).2 = sa at hwp hst1 hma hpa
+  have hwa : WF sa := hst1.wf hw3
+  have hoa : Own sa s.seq c.id s.futs.length := ho2.sub hst1.sub
+  have hres := deliverAll_reply pre post d { sa with script := rest, trace := sa.trace ++ [.wait 10] } s.seq c.id s.futs.length nm v tr
+    hwa hoa hma hpa
+    (fun x hx' id nm v tr => by
+      show rxFrame sa.version sa.cmds x ≠ _
+      rw [hst1.version, hst1.cmds]
+      exact hno x (List.mem_append_right _ hx') id nm v tr)
+    (by show rxFrame sa.version sa.cmds d = _
+        rw [hst1.version, hst1.cmds]; exact hd) hnm
+  generalize hsb : (deliverAll (pre ++ d :: post) { sa with script := rest, trace := sa.trace ++ [.wait 10] }).2 = sb at hwp hres
+  unfold waitEnd at hwp
+  rw [hres] at hwp
+  dsimp only at hwp
+  rw [← hwp] at hk ⊢
+  dsimp only
+  obtain ⟨aw, hcl, -⟩ := cleanup_spec sb s.seq c.id s.futs.length (ho2.sub hk.sub)
+  rw [hcl]
+
 end BV.Proofs.Src.Cmd
